@@ -140,6 +140,8 @@ def case_coq(cs):
         if r == 2:
             break   # the state machine panicked: nothing to compare, the process is gone
         t = cmd_coq_x(c) if modelled else None
+        if t is not None and cs.get("xshards") and c["k"] == "cnode" and not c.get("x"):
+            t = "XJoin %s %s" % (coq_z(c.get("h", 0)), coq_z(c.get("t", 0)))   # a join on a store with expand-shards-enable
         if t is None:
             modelled = False
             t = "Base (PruneSg 0%Z)"
@@ -272,7 +274,7 @@ def main(ck):
             ck.known_finding(F_PANIC, "the state machine panics on the node join at step %d of case %s (partition view for %s without a database)" % (i, bad["name"], orphan))
             panic_known.add(ci)
         else:
-            ck.violation({"kind": "direct-oracle", "what": {"kind": "panic", "step": i}, "case": {k: bad[k] for k in ("name", "ptper", "sclean", "modelled")} |
+            ck.violation({"kind": "direct-oracle", "what": {"kind": "panic", "step": i}, "case": {k: bad[k] for k in ("name", "ptper", "sclean", "modelled", "xshards") if k in bad} |
                           {"cmds": bad["cmds"][:i + 1]}, "explanation": "storeFSM.executeCmd panicked on this command sequence"})
 
     # ---- model evaluation
@@ -359,7 +361,7 @@ def main(ck):
         if key in seen_v or len(seen_v) >= 4:
             continue
         seen_v.add(key)
-        ck.violation({"kind": "direct-oracle", "what": f, "case": {k: cs[k] for k in ("name", "ptper", "sclean", "modelled")} |
+        ck.violation({"kind": "direct-oracle", "what": f, "case": {k: cs[k] for k in ("name", "ptper", "sclean", "modelled", "xshards") if k in cs} |
                       {"cmds": cs["cmds"][:f["step"] + 1]}, "explanation": "the catalogue dumped from the real meta.Data after this command "
                       "sequence violates the C16 statement (%s) outside every known-finding signature" % f["kind"]})
     if ok and not impl and not oracle_unknown:
@@ -367,7 +369,7 @@ def main(ck):
         i, k = best[1]
         ck.broken.append("correspondence C16: no model variant (today's code / repaired) matches the implementation; "
                          "variant %s first differs on case %s at step %d" % (best[0], cases[i]["name"], k))
-        ck.nofail_detail = {"kind": "correspondence", "case": {kk: cases[i][kk] for kk in ("name", "ptper", "sclean", "modelled")} |
+        ck.nofail_detail = {"kind": "correspondence", "case": {kk: cases[i][kk] for kk in ("name", "ptper", "sclean", "modelled", "xshards") if kk in cases[i]} |
                             {"cmds": cases[i]["cmds"][:k + 1]}, "step": k, "first_differences": {n: [cases[a]["name"], b] for n, (a, b) in first_bad.items()},
                             "explanation": "model and implementation states differ after this command; the direct oracle found no "
                             "violation of the statement outside the known findings"}
